@@ -1,9 +1,10 @@
 SPECIFICATION Spec
 CONSTANTS
-  Params <- MCParams1t
-  Vals <- MCVals4
+  Params <- ParamsLife3
+  Vals <- ValsL
   MaxB = 2
-  MaxRows = 5
+  MaxRows = 2
+  Ops <- AllOps
   Variant = "chan"
   Depth = 0
 INVARIANT MomentsDef
